@@ -19,6 +19,9 @@ import time
 from pfv import terms as tm
 from pfv.framework import Obligation, Verdict, real_exec
 from pfv.proxies import explore, SReal, SInt
+import functools as _ft
+_explore_raw = explore
+explore = _ft.partial(_explore_raw, enforce_bounds=True)     # shim range assumptions (slices / indices) must be provable on every returning path
 from contracts import instruments as ins
 from contracts import hedging
 
